@@ -40,7 +40,20 @@ class _ESF:
     Q2 = 10.0
 
 
+ZLAT_DENSE = sorted(set(ZLAT + [10.0**-k for k in range(1, 12)] + [1 - 10.0**-k for k in range(1, 10)] + [i / 256.0 for i in range(1, 256)]))
+NS_DENSE = sorted(set(NS + [float(n) for n in range(1, 31)] + [n + 0.5 for n in range(1, 20)] + [1.1, 1.01, 45.0, 80.0]))
+_Z, _N = ZLAT, NS
+
+
 def states(tier, seed):
+    out = _states_base(tier, seed)
+    if tier == "thorough":
+        # deep extension: the closed forms and inter-class identities on a 285-point z lattice (down to 1e-11, up to 1-1e-9) and 60 Mellin moments (N up to 80)
+        out += [dict(st, dense=1) for st in out if st["check"].startswith(("nlo_", "rel_"))]
+    return out
+
+
+def _states_base(tier, seed):
     out = []
     for nf in (3, 4, 5, 6):
         for chk in ("adler", "gls", "bjorken", "valence", "nlo_f2", "nlo_fl", "nlo_f3", "nlo_g1", "nlo_g4gl", "rel_g1_f3", "rel_g4_f2", "rel_gl_fl", "rel_cc", "lo"):
@@ -105,7 +118,7 @@ def _cmp_closed(st, viol, label, rsl, ref):
     if rsl is None:
         viol.append(_v(st, "missing", f"{label}: the class has no coefficient at this order"))
         return 0.0
-    for z in ZLAT:
+    for z in _Z:
         a = _f(rsl, z)
         b = (rr(z, None) if rr else 0.0) + (rs(z, None) if rs else 0.0)
         sc = abs(b) + (abs(rr(z, None)) if rr else 0.0) + (abs(rs(z, None)) if rs else 0.0)
@@ -113,7 +126,7 @@ def _cmp_closed(st, viol, label, rsl, ref):
         if abs(a - b) > 1e-11 * sc:
             viol.append(_v(st, "closed-form-pointwise", f"{label}: value at z={z}: {a:.14g}, published closed form {b:.14g}"))
             break
-    for N in NS:
+    for N in _N:
         a = _moment(rsl, N)
         b = ref_conv.moment(rr, None, rs, None, rd, N)[0]
         sc = abs(b) + abs(rd) + 1.0
@@ -133,7 +146,7 @@ def _cmp_same(st, viol, label, a, b, orders):
             continue
         if ra is None:
             continue
-        for z in ZLAT:
+        for z in _Z:
             x, y = _f(ra, z), _f(rb, z)
             if abs(x - y) > 1e-12 * (abs(x) + abs(y)):
                 viol.append(_v(st, "relation-pointwise", f"{label} order {o}: values at z={z}: {x:.14g} vs {y:.14g}"))
@@ -213,6 +226,8 @@ def _engine(st):
 
 
 def execute(st):
+    global _Z, _N
+    _Z, _N = (ZLAT_DENSE, NS_DENSE) if st.get("dense") else (ZLAT, NS)
     nf = st["nf"]
     chk = st["check"]
     if chk.startswith("engine_"):
